@@ -181,6 +181,9 @@ package keeper
 //@ ghost trGenesis [str]bool
 //@ ghost trFromGenesisPool [str]bool
 //@ ghost trFromGenesisAccount [str]bool
+//@ // the record's id and the id counter (exported and re-imported with the records, C12)
+//@ ghost trId [str]int
+//@ ghost trCount int
 //@ func (k Keeper) GetVestingType(ctx, name) (vestingType, err)
 //@   trusted
 //@   ensures (err == nil) == $vtFound[name]
@@ -188,16 +191,18 @@ package keeper
 //@     && vestingType.LockupPeriod == $vtLockup[name] && vestingType.VestingPeriod == $vtVesting[name]
 //@ func (k Keeper) AppendVestingAccountTrace(ctx, vestingAccountTrace) (id)
 //@   trusted
-//@   modifies $trFound, $trGenesis, $trFromGenesisPool, $trFromGenesisAccount
+//@   modifies $trFound, $trGenesis, $trFromGenesisPool, $trFromGenesisAccount, $trId, $trCount
 //@   ensures $trFound == store(old($trFound), vestingAccountTrace.Address, true)
 //@   ensures $trGenesis == store(old($trGenesis), vestingAccountTrace.Address, vestingAccountTrace.Genesis)
 //@   ensures $trFromGenesisPool == store(old($trFromGenesisPool), vestingAccountTrace.Address, vestingAccountTrace.FromGenesisPool)
 //@   ensures $trFromGenesisAccount == store(old($trFromGenesisAccount), vestingAccountTrace.Address, vestingAccountTrace.FromGenesisAccount)
+//@   // the record is renumbered with the counter, which advances
+//@   ensures id == old($trCount) && $trId == store(old($trId), vestingAccountTrace.Address, old($trCount)) && $trCount == old($trCount) + 1
 //@ func (k Keeper) GetVestingAccountTrace(ctx, address) (val, found)
 //@   trusted
 //@   ensures found == $trFound[address]
 //@   ensures found ==> val.Address == address && val.Genesis == $trGenesis[address] && val.FromGenesisPool == $trFromGenesisPool[address]
-//@     && val.FromGenesisAccount == $trFromGenesisAccount[address]
+//@     && val.FromGenesisAccount == $trFromGenesisAccount[address] && val.Id == $trId[address]
 //@ // C17: an account is genesis-derived iff it has a trace with one of the three lineage flags
 //@ pred genesisDerived(a) = $trFound[a] && ($trGenesis[a] || $trFromGenesisPool[a] || $trFromGenesisAccount[a])
 //@ pred tracesUnchangedExcept(a) = forall b: str :: {$trFound[b]} b != a ==> $trFound[b] == old($trFound[b]) && $trGenesis[b] == old($trGenesis[b])
@@ -264,7 +269,7 @@ package keeper
 //@   requires poolsOK(owner) && poolTimesSane(owner) && vestingTypesSane() && timeOK($blockTime) && $blockTime >= -1000000000000000000 && $blockTime <= 1000000000000000000
 //@   modifies $pFound, $pLen, $pName, $pType, $pLockStart, $pLockEnd, $pIL, $pW, $pS, $pGenesis, $bal, $evCount, $evTag, $evRef
 //@   modifies $accTag, $accNum, $accSeq, $accPub, $accOV, $accDF, $accDV, $accStart, $accEnd, $accNextNum
-//@   modifies $trFound, $trGenesis, $trFromGenesisPool, $trFromGenesisAccount
+//@   modifies $trFound, $trGenesis, $trFromGenesisPool, $trFromGenesisAccount, $trId, $trCount
 //@   uses lastNamedRange($pName[owner], vestingPoolName, $pLen[owner])
 //@   // C09: no existing account is replaced or altered
 //@   ensures existingAccountsUntouched()
@@ -397,7 +402,7 @@ package keeper
 //@
 //@ func (k msgServer) splitVestingCoins(ctx, from, toAddress, amount) (err)
 //@   modifies $accTag, $accNum, $accSeq, $accPub, $accOV, $accDF, $accDV, $accStart, $accEnd, $accNextNum, $evCount, $evTag, $evRef, $bal
-//@   modifies $trFound, $trGenesis, $trFromGenesisPool, $trFromGenesisAccount
+//@   modifies $trFound, $trGenesis, $trFromGenesisPool, $trFromGenesisAccount, $trId, $trCount
 //@   // C09: the recipient had no account; the only existing account that changes is the sender's, and only by a smaller OriginalVesting
 //@   ensures err == nil ==> old($accTag[toAddress]) == 0
 //@   ensures forall a: str :: {$accTag[a]} old($accTag[a]) != 0 && a != from ==>
@@ -517,15 +522,20 @@ package keeper
 //@   ensures $vtFound == store(old($vtFound), name, false)
 //@ func (k Keeper) SetVestingAccountTraceCount(ctx, count)
 //@   trusted
+//@   modifies $trCount
+//@   ensures $trCount == count
 //@ func (k Keeper) GetVestingAccountTraceCount(ctx) (count)
 //@   trusted
+//@   ensures count == $trCount
 //@ func (k Keeper) SetVestingAccountTrace(ctx, vestingAccountTrace)
 //@   trusted
-//@   modifies $trFound, $trGenesis, $trFromGenesisPool, $trFromGenesisAccount
+//@   modifies $trFound, $trGenesis, $trFromGenesisPool, $trFromGenesisAccount, $trId, $trCount
 //@   ensures $trFound == store(old($trFound), vestingAccountTrace.Address, true)
 //@   ensures $trGenesis == store(old($trGenesis), vestingAccountTrace.Address, vestingAccountTrace.Genesis)
 //@   ensures $trFromGenesisPool == store(old($trFromGenesisPool), vestingAccountTrace.Address, vestingAccountTrace.FromGenesisPool)
 //@   ensures $trFromGenesisAccount == store(old($trFromGenesisAccount), vestingAccountTrace.Address, vestingAccountTrace.FromGenesisAccount)
+//@   // the record keeps the id it carries; the counter is not touched
+//@   ensures $trId == store(old($trId), vestingAccountTrace.Address, vestingAccountTrace.Id) && $trCount == old($trCount)
 //@ // store iteration is not modelled: the list of all traces is assumed to be the recorded ones (each element agrees with the
 //@ // ghost view; that every recorded address occurs exactly once is part of the assumption)
 //@ ghost trListN int
@@ -536,6 +546,7 @@ package keeper
 //@   ensures len(list) == $trListN && (forall i: int :: {list[i].Address} 0 <= i && i < len(list) ==> list[i].Address == $trList[i])
 //@   ensures forall i: int :: {list[i].Address} 0 <= i && i < len(list) ==> $trFound[list[i].Address] && list[i].Genesis == $trGenesis[list[i].Address]
 //@     && list[i].FromGenesisPool == $trFromGenesisPool[list[i].Address] && list[i].FromGenesisAccount == $trFromGenesisAccount[list[i].Address]
+//@     && list[i].Id == $trId[list[i].Address]
 //@
 //@ // ---- C17: the vesting summaries are the sums recomputed from account state ----
 //@ // still-vesting amount of denom d of the continuous vesting account at address a, at unix time tu (the x/auth schedule)
@@ -604,7 +615,7 @@ package keeper
 //@   requires msg != nil
 //@   panic_requires cvaSane(fromBech32(msg.FromAddress)) && timeOK($blockTime)
 //@   modifies $accTag, $accNum, $accSeq, $accPub, $accOV, $accDF, $accDV, $accStart, $accEnd, $accNextNum, $evCount, $evTag, $evRef, $bal
-//@   modifies $trFound, $trGenesis, $trFromGenesisPool, $trFromGenesisAccount
+//@   modifies $trFound, $trGenesis, $trFromGenesisPool, $trFromGenesisAccount, $trId, $trCount
 //@   ensures [moves-all-locked] r1 == nil && fromBech32(msg.FromAddress) != fromBech32(msg.ToAddress) ==>
 //@       $accOV[fromBech32(msg.ToAddress)] == old(bankLocked(fromBech32(msg.FromAddress)))
 //@   prop C07 C20
@@ -617,7 +628,7 @@ package keeper
 //@   requires msg != nil
 //@   panic_requires cvaSane(fromBech32(msg.FromAddress)) && timeOK($blockTime)
 //@   modifies $accTag, $accNum, $accSeq, $accPub, $accOV, $accDF, $accDV, $accStart, $accEnd, $accNextNum, $evCount, $evTag, $evRef, $bal
-//@   modifies $trFound, $trGenesis, $trFromGenesisPool, $trFromGenesisAccount
+//@   modifies $trFound, $trGenesis, $trFromGenesisPool, $trFromGenesisAccount, $trId, $trCount
 //@   ensures [moves-selected] r1 == nil && fromBech32(msg.FromAddress) != fromBech32(msg.ToAddress) ==> (forall i: int :: {msg.Denoms[i]} 0 <= i && i < len(msg.Denoms) ==>
 //@       $accOV[fromBech32(msg.ToAddress)][msg.Denoms[i]] == old(bankLocked(fromBech32(msg.FromAddress))[msg.Denoms[i]]))
 //@   ensures [moves-nothing-else] r1 == nil && fromBech32(msg.FromAddress) != fromBech32(msg.ToAddress) ==> (forall d: str :: {$accOV[fromBech32(msg.ToAddress)][d]}
@@ -641,7 +652,7 @@ package keeper
 //@   requires msg != nil
 //@   panic_requires cvaSane(fromBech32(msg.FromAddress)) && timeOK($blockTime)
 //@   modifies $accTag, $accNum, $accSeq, $accPub, $accOV, $accDF, $accDV, $accStart, $accEnd, $accNextNum, $evCount, $evTag, $evRef, $bal
-//@   modifies $trFound, $trGenesis, $trFromGenesisPool, $trFromGenesisAccount
+//@   modifies $trFound, $trGenesis, $trFromGenesisPool, $trFromGenesisAccount, $trId, $trCount
 //@   ensures [moves-requested] r1 == nil && fromBech32(msg.FromAddress) != fromBech32(msg.ToAddress) ==> $accOV[fromBech32(msg.ToAddress)] == old(msg.Amount)
 //@   prop C07 C20
 //@ loop msgServer.SplitVesting#1
